@@ -591,3 +591,7 @@ class Grid(object):
             shape = np.concatenate((tensor_shape, [self.size]))
 
         return Field(np.empty(shape, dtype=dtype), self)
+
+# The base class is its own coordinate system ('none'), so that a Grid written by to_dict() / write_grid() /
+# write_field() can be read back by from_dict() / read_grid() / read_field().
+Grid._add_coordinate_system('none', Grid)
